@@ -192,7 +192,7 @@ def check(run, repo, world):
              "dry_run is known false")
     changing = [y for y in ys if _is(y, "SetShortAddress")
                 or _is(y, "ProgramShortAddress")]
-    run.floor("address-changing yields", len(changing), 2)
+    run.floor("address-changing yields", len(changing), 2, defer=True)
     for y in changing:
         ok = W.must(y.node, ("cond", "dry_run", False))
         run.ob("R-COMM-DRY", C + "#yield " + y.name, ok,
@@ -228,9 +228,11 @@ def check(run, repo, world):
         first = not W.may(y.node, "randomised")
         if not first:
             continue
+        # (a path that never asked about dry_run is also one on which
+        # dry_run may be off)
         bad = W.worlds_with(y.node, lambda w: (
             ("cond", "readdress", True) in w and
-            ("cond", "dry_run", False) in w and "cleared" not in w))
+            ("cond", "dry_run", True) not in w and "cleared" not in w))
         # worlds where the mode is unknown count as possibly re-addressing
         bad += W.worlds_with(y.node, lambda w: (
             "cleared" not in w and "scanned" not in w and
@@ -320,6 +322,40 @@ def check(run, repo, world):
             ok = bool(defs) and all(_is_pool_pop(d, pool) for d in defs)
             msg = ("%s has a definition other than %s.pop(...): %s"
                    % (a.id, pool, [unparse(d) for d in defs]))
+            if not ok and defs and all(_is_pool_next(cfg, d, pool)
+                                       for d in defs):
+                # the pool handed out through one iterator over it:
+                # next(it, SENTINEL), programmed only when it is not the
+                # sentinel; the pool is not touched once the iterator exists
+                sent = {unparse(d.args[1]) for d in defs}
+                its = {d.args[0].id for d in defs}
+                guard = len(sent) == 1 and W.must(
+                    y.node, ("cond", "%s is %s" % (a.id, list(sent)[0]),
+                             False))
+                frozen = True
+                for (nd, v) in _defs_of(cfg, list(its)[0], nodes=True):
+                    seen_, stack_ = set(), [m_ for (l_, m_) in nd.succ]
+                    while stack_:
+                        x_ = stack_.pop()
+                        if x_.id in seen_:
+                            continue
+                        seen_.add(x_.id)
+                        if x_.ast is not None and x_.kind in (
+                                "stmt", "test") and any(
+                                    isinstance(c_, ast.Call) and isinstance(
+                                        c_.func, ast.Attribute) and unparse(
+                                            c_.func.value) == pool and
+                                    c_.func.attr in ("pop", "remove",
+                                                     "append", "insert",
+                                                     "clear", "extend",
+                                                     "sort", "reverse")
+                                    for c_ in _walk_no_nested(x_.ast)):
+                            frozen = False
+                        stack_ += [m_ for (l_, m_) in x_.succ]
+                ok = len(its) == 1 and guard and frozen
+                msg = ("%s = next(%s, %s): sentinel guard %s, pool left "
+                       "alone after iter(): %s" % (
+                           a.id, sorted(its), sorted(sent), guard, frozen))
         run.ob("R-COMM-POOL", C + "#programmed-value", ok, msg,
                where(mod, y.node))
     # (b) pool: assigned only from list(...) of range(64)/the parameter,
@@ -619,6 +655,17 @@ def _defs_of(cfg, name, nodes=False):
     return out
 
 
+def _is_pool_next(cfg, e, pool):
+    """next(IT, SENTINEL) with IT bound once, to iter(pool)."""
+    if not (isinstance(e, ast.Call) and unparse(e.func) == "next" and len(
+            e.args) == 2 and isinstance(e.args[0], ast.Name)):
+        return False
+    ds = _defs_of(cfg, e.args[0].id)
+    return len(ds) == 1 and isinstance(ds[0], ast.Call) and unparse(
+        ds[0].func) == "iter" and len(ds[0].args) == 1 and unparse(
+            ds[0].args[0]) == pool
+
+
 def _is_pool_pop(e, pool):
     return isinstance(e, ast.Call) and isinstance(e.func, ast.Attribute) \
         and e.func.attr == "pop" and isinstance(e.func.value, ast.Name) \
@@ -764,6 +811,34 @@ def _check_discovery(cfg, world, qp, pool, ynode, inits, INc):
         if not (full or alt or alt2):
             why.append("discovery loop iterates %s, not every candidate"
                        % unparse(it))
+        # inside the loop the query is skipped only for candidates that are
+        # not in the pool: every test between the loop head and the query
+        # is `var in pool`
+        seen_, stack_ = set(), [(m_, ()) for (l_, m_) in loop.succ
+                                if l_ == "loop"]
+        while stack_:
+            n_, conds_ = stack_.pop()
+            if n_ is y.node:
+                extra = [t_ for t_ in conds_ if t_ not in (
+                    "%s in %s" % (var, pool),)]
+                if extra:
+                    why.append("the in-use query for a candidate is skipped "
+                               "unless `%s`: an address the caller listed "
+                               "but a unit already owns is handed out again"
+                               % " and ".join(extra))
+                continue
+            if (n_.id, conds_) in seen_ or n_ is loop:
+                continue
+            seen_.add((n_.id, conds_))
+            for (l_, m_) in n_.succ:
+                if l_ == "exc":
+                    continue
+                c2 = conds_
+                if n_.kind == "test" and l_ in ("T", "F"):
+                    txt = unparse(n_.ast) if l_ == "T" else \
+                        "not " + unparse(n_.ast)
+                    c2 = conds_ + (txt,)
+                stack_.append((m_, c2))
         if y.target is None:
             why.append("QueryControlGearPresent answer is discarded")
             continue
@@ -843,6 +918,16 @@ def _check_find_next(run, repo, world, ccfg, cys, cynode):
             break
     want = ["SearchaddrH", "SearchaddrM", "SearchaddrL", "Compare"]
     got = [y.cls.name if y.cls else y.name for y in seq[:4]]
+    if not seq and any(isinstance(w_, (ast.While, ast.For)) for w_ in
+                       ast.walk(fn)):
+        # the search written as a loop over a work list of ranges (or any
+        # loop that is not the tail-recursive form): which ranges are
+        # examined, in which order, is then a property of the data
+        # structure's history, not of the control flow this rule reads
+        raise AnalysisError(
+            "_find_next: the binary search is written as a loop the rule "
+            "cannot read as the recursion over halves (no straight-line "
+            "search-address prefix)")
     hi = fn.args.args[1].arg if len(fn.args.args) > 1 else "high"
     shifts_ok = len(seq) >= 3 and [
         _byte_lane(seq[i].arg(0), hi) for i in range(3)] == [2, 1, 0]
